@@ -12,7 +12,8 @@ Definition op_okb (o : op) : bool :=
   match o with
   | TIn v | TOut v _ | SOut v | OOut v | OChange v | IOut v => zat_okb v
   | SSpend v | OSpend v | ISpend v _ => in_u64 v
-  | TInSh v m n => zat_okb v && (1 <=? m) && (m <=? n) && (n <=? 3)
+  | TInSh v m n => zat_okb v && (1 <=? m) && (m <=? n) && (n <=? 15)
+  | TInRaw v => zat_okb v
   | TNull n => in_range 0 100000 n
   | Propose (VSprout n) => in_u32 n
   | Propose _ => true
@@ -25,8 +26,10 @@ Definition rule_okb (ru : rule) : bool :=
 Definition wf_req (r : req) : bool :=
   in_u32 (r_height r) && forallb op_okb (r_ops r) && pad_okb (r_opad r) && pad_okb (r_ipad r)
   && rule_okb (r_rule r)
-  && forallb (in_range 4 6) (r_keys r)
+  && forallb (in_range 4 18) (r_keys r)
   && match r_route r, r_rule r with Mock, RLin _ => false | _, _ => true end
-  && (negb (is_deferred r) || forallb deferred_op (r_ops r)).
+  && (negb (is_deferred r) || forallb deferred_op (r_ops r))
+  (* a coinbase transaction is built, not drafted as a PCZT *)
+  && (negb (r_coinbase r) || match r_route r with Mock | Build => true | _ => false end).
 
-Definition wf_case (c : case) : bool := match c with Case r _ _ => wf_req r end.
+Definition wf_case (c : case) : bool := match c with Case r _ _ _ => wf_req r end.
